@@ -252,6 +252,9 @@ func (r *relay) processFrame(f http2.Frame) error {
 		} else {
 			var settings []http2.Setting
 			if err = f.ForeachSetting(func(s http2.Setting) error {
+				if err := s.Valid(); err != nil {
+					return err
+				}
 				switch s.ID {
 				case http2.SettingHeaderTableSize:
 					r.peer.updateTableSize(s.Val)
